@@ -41,7 +41,7 @@ func runC32(x *simkit.Exec) {
 	start := time.UnixMilli(epochMs)
 	iterations := x.Range("iterations", 1, 3)
 	gap := []time.Duration{500 * time.Millisecond, 2 * time.Second, 30 * time.Minute}[x.Draw("gap", 3)]
-	cfg := compCfg{defs: defs, ranges: []int64{2 * hourMs, 8 * hourMs}, fetchConc: x.Range("fetchConc", 1, 3), blockFilesConc: 1, compactFetchConc: 1,
+	cfg := compCfg{defs: defs, ranges: []int64{2 * hourMs, 8 * hourMs}, fetchConc: 32, blockFilesConc: 1, compactFetchConc: 1,
 		consistencyDelay: 0, retention: map[compact.ResolutionLevel]time.Duration{}}
 	cfg.deleteDelay = []time.Duration{defs.deleteDelay, 2 * time.Hour, 90 * time.Second}[x.Draw("deleteDelay", 3)]
 	resolutions := []int64{0, 300000, 3600000}
@@ -98,6 +98,7 @@ func runC32(x *simkit.Exec) {
 		for _, b := range blocks {
 			id := b.spec.ID.String()
 			byID[id] = b
+			bkt.Canon(id)
 			putBlock(bkt.Inner, srcDir, b.spec, true)
 			if b.partial {
 				_ = bkt.Inner.Delete(ctx, id+"/meta.json")
